@@ -3,11 +3,14 @@ Line-protocol driver for the CodeHolder model (C03 label references, C04 relocat
 
 model mode   : `init <x86|x64|a64> <base hex | ->` starts a program; every op line is answered
                `<Err> <size of current section> <unresolved count>` (+ ` <reduction>` for relocate);
-               `dump` prints layout, bytes and label table.
+               `dump` prints layout, bytes and label table;
+               `jitadd <rx hex>` = JitRuntime::add with the span at rx: `<Err> <size> <count> <rx> <code size> <image hex>`,
+               `jitrelease` -> `<Err> <size> <count> live=0`.
 monitor mode : `moninit <arch> <base|->`, `mon <Err> <size> <count> | <op words>` (implementation's answer + op; no output),
                `mondump <dump line of the implementation>` -> `good` / `BAD <why>` (Spec/RefSemantics.judge).
 -/
 import AsmjitVerif.Model.Prog
+import AsmjitVerif.Model.JitAdd
 import AsmjitVerif.Spec.RefSemantics
 import Driver.Common
 open AsmjitVerif.Offset
@@ -90,6 +93,7 @@ def parseDump (ws : List String) : Option Dump :=
 structure DS where
   model : State
   ghost : Ghost
+  added : Bool := false     -- a successful `jitadd` not yet released
   deriving Inhabited
 
 def answer (s : State) (e : Err) : String := s!"{e.name} {s.curOff} {s.count}"
@@ -139,6 +143,20 @@ def stepLine (st : DS) (line : String) : DS × String :=
       | some v => if a + decode32 k.kind.fmt (BitVec.ofNat 32 v) == t then (st, "good") else (st, "BAD direct-branch-wrong-target")
       | none => (st, "BAD branch-out-of-buffer")
     | _, _, _, _ => (st, "bad-op")
+  | ["jitadd", b] =>
+    -- `JitRuntime::add`; the span address is the one the real allocator returned (given by the check script)
+    match bv64? b with
+    | some rx =>
+      let (s', r) := jitAdd st.model rx
+      match r with
+      | .ok img => ({ st with model := s', added := true },
+                    answer s' .ok ++ s!" {toHex rx.toNat} {img.length} {if img.isEmpty then "-" else bytesToHex img}")
+      | .noCode => ({ st with model := s', added := false }, s!"NoCodeGenerated {s'.curOff} {s'.count}")
+      | .failed e => ({ st with model := s', added := false }, answer s' e)
+    | none => (st, "bad-op")
+  | ["jitrelease"] =>
+    -- `JitRuntime::release`: kInvalidArgument for the null pointer a failed add left; nothing stays allocated
+    ({ st with added := false }, answer st.model (if st.added then .ok else .invalidArgument) ++ " live=0")
   | ("relocate" :: _) =>
     match parseOp ws with
     | some (.relocate b) =>
